@@ -218,6 +218,18 @@ def SpellsRoot (c : Cfg) (root : String) (m : Fields) (t : PTree) : Prop :=
   | some (.oneof ops), .obj ms => SpellsO c ops m ms
   | _, _ => False
 
+/-- `(k, v)` is a member of the object body -/
+def isMember (k : Bytes) (v : PTree) : PMembers → Prop
+  | .nil _ => False
+  | .cons k' _ v' rest => (k' = k ∧ v' = v) ∨ isMember k v rest
+
+/-- the values the elements of a scalar array denote, position by position -/
+def elemsDenote (O : Oracle) (k : ScalarKind) : List PVal → PElems → Prop
+  | vs, .nil _ => vs = []
+  | [], .cons _ _ => False
+  | v :: vs, .cons t rest =>
+    (∃ tok, goTok t = some tok ∧ decodeScalar O k tok = .ok (some v)) ∧ elemsDenote O k vs rest
+
 /-! # The document equivalent to a scalar query parameter (C03: "scalar values supplied as URL
 query parameters produce the same message as the canonical spelling")
 
